@@ -123,3 +123,23 @@ def dispatch_break_ok(definitions, name):
 
 def param_bad(schema, document, type_resolver=None):
     return execute(schema, document)
+
+
+def guard_bad(iface_args, type_args, report):
+    if iface_args:
+        for name, arg in iface_args.items():
+            if name not in type_args:
+                report(name)
+        for name, arg in type_args.items():
+            if name not in iface_args and arg.required:
+                report(name)
+
+
+def guard_ok(iface_args, type_args, report):
+    if iface_args:
+        for name, arg in iface_args.items():
+            if name not in type_args:
+                report(name)
+    for name, arg in type_args.items():
+        if name not in iface_args and arg.required:
+            report(name)
